@@ -28,6 +28,30 @@ func twin(m gen.ResModel) jsonapi.Resource {
 
 func pairKey(typ, id string) string { return fmt.Sprintf("%q %q", typ, id) }
 
+// cursorCol is a Collection that hands out one reused object pointed at the
+// member asked for.
+type cursorCol struct {
+	members []jsonapi.Resource
+	view    *cursorView
+}
+
+// cursorView is whatever resource the cursor is on.
+type cursorView struct{ jsonapi.Resource }
+
+func (c *cursorCol) GetType() jsonapi.Type  { return jsonapi.Type{} }
+func (c *cursorCol) Len() int               { return len(c.members) }
+func (c *cursorCol) Add(r jsonapi.Resource) { c.members = append(c.members, r) }
+
+func (c *cursorCol) At(i int) jsonapi.Resource {
+	if i < 0 || i >= len(c.members) {
+		return nil
+	}
+
+	c.view.Resource = c.members[i]
+
+	return c.view
+}
+
 func TestC03WellFormed(t *testing.T) {
 	r := rec.For("C03WellFormed")
 
@@ -51,6 +75,22 @@ func TestC03WellFormed(t *testing.T) {
 			c.Doc.Data = ranged
 
 			labels = append(labels, "data:via-Range")
+		}
+
+		// ... or as a collection of the caller's own making that hands out one
+		// reused object, pointed at the member asked for (a cursor over
+		// rows): any Collection implementation will do.
+		if c.DataKind == "resources" && rapid.IntRange(0, 4).Draw(t, "viaCursor") == 0 {
+			col := c.Doc.Data.(jsonapi.Collection)
+			cur := &cursorCol{view: &cursorView{}}
+
+			for i := 0; i < col.Len(); i++ {
+				cur.members = append(cur.members, col.At(i))
+			}
+
+			c.Doc.Data = cur
+
+			labels = append(labels, "data:via-cursor")
 		}
 
 		// A document that went through UnmarshalDocument has an empty, non-nil
